@@ -49,6 +49,17 @@ CHECKS = {
             'nothing of an ended transport is listed anywhere, final '
             'structural snapshot equals a freshly built server, reachable '
             'object graph does not grow across generations.'),
+    'C12': ('DESIGN 4/C12',
+            'Seeded search over sequences of hostile offender frames '
+            '(grammar mutations of valid packets, a catalogue of malformed / '
+            'mistyped / absurd-count / deep-nesting frames, random text and '
+            'bytes; msgpack: mutated maps) in flight together with events, '
+            'acks, room emits and callbacks of 2-3 bystanders, on both '
+            'servers and both serializers; oracle = bystander traces '
+            '(invocations, exact per-connection frame multiset, callbacks, '
+            'rooms, sessions) equal the prediction from their own traffic, '
+            'surely-undecodable frames invoke no handler, liveness round '
+            'trip afterwards, tracemalloc growth bounded by bytes received.'),
     'C16': ('DESIGN 4/C16',
             'Seeded search over histories of save_session / get_session / '
             'session() blocks (directly and through class-based namespace '
